@@ -1,5 +1,5 @@
 """Strings and views (C15) and the string-side parser rules of C20."""
-from .ir import path, canon, std_unwrap, AnalysisBroken
+from .ir import path, canon, std_unwrap, AnalysisBroken, climb
 from . import flow
 from . import rules_atomic as RA
 from .poly import Poly, to_poly
@@ -42,6 +42,17 @@ class StrFn:
             return Poly.const(c) if c is not None else None
         if k == "InitListExpr" and len(n.children) == 1:
             return to_poly(n.children[0], self.leaf)
+        if k == "ConditionalOperator" and len(n.children) == 3:
+            # `a < b ? a : b` in any spelling of the comparison: min(a, b)
+            rel = flow.fact_relation(n.children[0], True)
+            if rel is not None and rel[1] in ("<", "<="):
+                l, r = canon(std_unwrap(rel[0])), canon(std_unwrap(rel[2]))
+                t, e = canon(std_unwrap(n.children[1])), canon(std_unwrap(n.children[2]))
+                if (t, e) == (l, r):
+                    a, b = to_poly(n.children[1], self.leaf), to_poly(n.children[2], self.leaf)
+                    if a is not None and b is not None:
+                        self.mins["min#c%d" % n.id] = [a, b]
+                        return Poly.sym("min#c%d" % n.id)
         p = path(n)
         if p == ("this", "_length"):
             if self.len_ctor is not None and self.len_ctor.id != n.id:
@@ -139,9 +150,7 @@ class StrFn:
         for n in self.fn.events():
             if n.kind == "CXXMemberCallExpr" and n.callee and n.callee["n"] == "allocate" and n.args:
                 sz = self.poly(n.args[0])
-                p, c = self.fn.parent(n), n
-                while p is not None and p.kind in ("ImplicitCastExpr", "ParenExpr", "CStyleCastExpr", "CXXReinterpretCastExpr", "CXXStaticCastExpr"):
-                    c, p = p, self.fn.parent(p)
+                c, p = climb(self.fn, n)
                 key = None
                 if p is not None and p.kind == "BinaryOperator" and p.op == "=":
                     b = self.buffer_of(p.children[0])
@@ -534,6 +543,14 @@ def check_views(ctx, unit):
                             if not (x.kind == "CXXMemberCallExpr" and x.callee and x.callee["n"] == "size"):
                                 return False
                             o = std_unwrap(x.child("obj"))
+                            # a by-value view parameter of a folded helper is a copy of the caller's view
+                            hops = 0
+                            while o.kind in ("CXXConstructExpr", "CXXTemporaryObjectExpr", "MaterializeTemporaryExpr",
+                                             "CXXBindTemporaryExpr") and hops < 6:
+                                src = o.args if o.kind in ("CXXConstructExpr", "CXXTemporaryObjectExpr") else o.children
+                                if len(src) != 1:
+                                    break
+                                o, hops = std_unwrap(src[0]), hops + 1
                             if who == "this":
                                 return o.kind == "CXXThisExpr"
                             return o.kind == "DeclRefExpr" and o.d["d"] == op_
@@ -550,14 +567,14 @@ def check_views(ctx, unit):
             ok = bool(subs)
             for s in subs:
                 g = False
-                for cond, truth in flow.facts_at(f, s.id):
-                    cs = cond.strip()
-                    if cs.kind == "BinaryOperator" and cs.op == "!=" and truth is False and path(cs.children[0]) == ("this", "_length"):
-                        g = True
                 b = False
                 for cond, truth in flow.facts_at(f, s.id):
-                    cs = cond.strip()
-                    if cs.kind == "BinaryOperator" and cs.op == "<" and truth and path(cs.children[1]) == ("this", "_length"):
+                    rel = flow.fact_relation(cond, truth)
+                    if rel is None:
+                        continue
+                    if rel[1] == "==" and ("this", "_length") in (path(rel[0]), path(rel[2])):
+                        g = True
+                    if rel[1] == "<" and path(rel[2]) == ("this", "_length"):
                         b = True
                 ok = ok and g and b
             # the length compared with _length must be the other operand's complete length
@@ -566,11 +583,15 @@ def check_views(ctx, unit):
                 if blk.cond is None:
                     continue
                 c = f.node(blk.cond).strip()
-                if c.kind == "BinaryOperator" and c.op in ("!=", "==") and path(c.children[0]) == ("this", "_length"):
-                    r = RA.resolve_local(f, c.children[1])
+                if c.kind == "BinaryOperator" and c.op in ("!=", "==") and ("this", "_length") in (path(c.children[0]), path(c.children[1])):
+                    r = c.children[1] if path(c.children[0]) == ("this", "_length") else c.children[0]
+                    r = RA.resolve_local(f, r)
                     r = std_unwrap(r)
                     nm = r.callee["n"] if (r.is_call() and r.callee) else None
-                    if nm not in ("size", "generic_strlen", "strlen"):
+                    rp = path(r)
+                    if rp and len(rp) >= 2 and rp[-1] == "_length" and rp[0] != "this":
+                        pass        # the other string's length field: what its size() returns
+                    elif nm not in ("size", "generic_strlen", "strlen"):
                         full = False
                     elif nm in ("generic_strlen", "strlen") and len(r.args) != 1:
                         full = False
